@@ -14,11 +14,15 @@ PROPS = {
     "C03": dict(mix=[("plain", 0.5, {}), ("plain", 0.5, {"mode": "any"})], mc=["MC_base"]),
     "C04": dict(mix=[("plain", 1.0, {"features": {"max_fcp": 5, "future": True}})], mc=["MC_runahead"]),
     "C05": dict(mix=[("plain", 1.0, {"features": {"queues": True, "max_tasks": 5}})], mc=["MC_queue"]),
-    "C07": dict(mix=[("plain", 1.0, {"features": {"future": True}})], mc=["MC_base"]),
+    "C07": dict(mix=[("plain", 0.6, {"features": {"future": True}}), ("stopcmds", 0.4, {})], mc=["MC_base"]),
     "C09": dict(mix=[("plain", 0.5, {}), ("faults", 0.5, {})], mc=["MC_msgs"]),
     "C10": dict(mix=[("faults", 1.0, {})], mc=["MC_msgs"]),
     "C11": dict(mix=[("plain", 0.5, {"mode": "any"}), ("plain", 0.5, {})], mc=["MC_base"]),
     "C26": dict(mix=[("plain", 0.6, {}), ("faults", 0.4, {})], mc=["MC_base"]),
+    "C06": dict(mix=[("hold", 1.0, {})], mc=["MC_hold"]),
+    "C43": dict(mix=[("stopcmds", 0.8, {}), ("restart", 0.2, {})], mc=["MC_stop"]),
+    "C45": dict(mix=[("abstrig", 1.0, {})], mc=["MC_abs"]),
+    "C46": dict(mix=[("warm", 1.0, {})], mc=["MC_warm"]),
     "C19": dict(mix=[("restart", 1.0, {})], mc=["MC_restart"]),
     "C20": dict(mix=[("crash", 1.0, {})], mc=["MC_crash"]),
     "C31": dict(mix=[("plain", 1.0, {"features": {"sequential": "always"}})], mc=["MC_seq"]),
